@@ -3,6 +3,7 @@ import ast
 import z3
 from .types import *
 from .values import *
+from .values import PyPoison
 from .execu import Exec, State, Outcome, Ctx, lift_ns, BUILTIN_EXC
 
 
@@ -29,7 +30,7 @@ def number_loops(fn_node):
 def assigned_roots(stmts):
     """names that may be (re)bound or mutated in place by the statements"""
     roots = set()
-    mut = {"append", "extend", "pop", "insert", "sort", "clear", "update", "add", "setdefault", "remove", "discard"}
+    mut = {"append", "extend", "pop", "insert", "sort", "clear", "update", "add", "setdefault", "remove", "discard", "add_cmd"}
 
     def root(n):
         while isinstance(n, (ast.Subscript, ast.Attribute)):
@@ -61,7 +62,7 @@ def contains_yield(stmts):
     return False
 
 
-_MUTATORS = ("append", "extend", "pop", "insert", "sort", "clear", "update", "add", "setdefault", "remove", "discard", "reverse",
+_MUTATORS = ("append", "extend", "pop", "insert", "sort", "clear", "update", "add", "setdefault", "remove", "discard", "reverse", "add_cmd",
              "move_to_end", "popitem")
 
 
@@ -455,6 +456,32 @@ class StmtExec(Exec):
                     outs.append(o)
         return outs
 
+    def st_FunctionDef(self, s, st):
+        """a nested `def` whose body is pure (assignments, if/else, return; no decorators, defaults or star parameters): the name is
+        bound to a closure over the environment at the definition, exactly like a lambda (used as a `key=` function)"""
+        a = s.args
+        if s.decorator_list or a.defaults or a.kw_defaults or a.vararg or a.kwarg or a.kwonlyargs or a.posonlyargs:
+            raise Unsupported("nested def %s with decorators / defaults / star parameters (line %d)" % (s.name, s.lineno))
+        for n in ast.walk(s):
+            if isinstance(n, (ast.Yield, ast.YieldFrom, ast.Global, ast.Nonlocal, ast.For, ast.While, ast.Try, ast.With, ast.AugAssign, ast.Delete)):
+                raise Unsupported("nested def %s is not a pure expression body (line %d)" % (s.name, s.lineno))
+        env = dict(st.env)
+        outer = self
+
+        def call(ex, args, kwargs, st2, cnode):
+            if kwargs or len(args) != len(a.args):
+                raise Unsupported("call of nested def %s with other than its positional parameters" % s.name)
+            sub = st2.copy()
+            sub.env = dict(env)
+            for p_, v in zip(a.args, args):
+                sub.env[p_.arg] = v
+            ev = SpecEval(outer.ctx, None)
+            ev.registry = outer.registry
+            ev.ret_ty = None
+            return ev.pure_block(list(s.body), sub)
+        st.env[s.name] = PyFn(s.name, call)
+        return [Outcome("normal", st)]
+
     def st_Pass(self, s, st):
         return [Outcome("normal", st)]
 
@@ -776,8 +803,14 @@ class StmtExec(Exec):
             # entries shared by an earlier iteration are still shared in a later one (and after the loop)
             h.env["__childshared__"] = frozenset(set(h.env.get("__childshared__", ())) | csr)
         outs = []
+        # `owned_elements` (declared ASSUMPTION of the contract, listed in the evidence): the elements of this iterable are objects that
+        # nothing else refers to, so the loop may update them in place; the loop variable is then the only handle on the element (value
+        # semantics stay exact for it) and the iterated name itself is stale afterwards: any later read of it is refused
+        owned_iter = isinstance(s.iter, ast.Name) and s.iter.id in (getattr(self.ctx.contract, "owned_elements", None) or {})
         # exit
         ex = h.copy()
+        if owned_iter:
+            ex.env[s.iter.id] = PyPoison("%s is stale: its elements were updated in place by the loop at line %d" % (s.iter.id, s.lineno))
         # a name stored into a container by some iteration may still be shared after the loop
         esc = {n for n in _escaping_names(s.body) if isinstance(ex.env.get(n), V) and ex.env[n].ty.mutable}
         if esc:
@@ -822,7 +855,7 @@ class StmtExec(Exec):
             # (not representable in the functional model) -> ownership discipline refuses it
             al = set(it.env.get("__aliased__", ()))
             for n in ast.walk(s.target):
-                if isinstance(n, ast.Name) and isinstance(it.env.get(n.id), V) and it.env[n.id].ty.mutable:
+                if isinstance(n, ast.Name) and isinstance(it.env.get(n.id), V) and it.env[n.id].ty.mutable and not owned_iter:
                     al.add(n.id)
             it.env["__aliased__"] = frozenset(al)
             # (the loop target itself is rebound by every iteration)
